@@ -66,6 +66,20 @@ def _check_walk(ctx, result, module, func, name, expect_callee, expect_op):
     for path in paths:
         found = _glex_loop_steps(ctx, module, path)
         if found is None:
+            # a path on which the verdict is overwritten term by term in some other order
+            for step in path:
+                if step.kind == "iter" and isinstance(step.node, ast.For) and any(
+                        isinstance(st, ast.Assign) and isinstance(st.targets[0], ast.Subscript)
+                        for st in ast.walk(step.node)):
+                    it = step.expand(step.node.iter)
+                    result.ob(f"{name}: terms are walked in ascending glexsort order on every path", False,
+                              module.loc(step.node), _txt(it)[:100])
+                    result.add(Finding(
+                        "R-CMP", module, name, step.node.iter,
+                        f"on this path the term walk iterates {_txt(it)[:100]}, which is not the glexsort permutation "
+                        f"of the aligned exponents: the storage order of aligned terms is not the selected monomial order",
+                        derivation=describe_path(path), construct=f"{name}: walk without glexsort"))
+                    break
             continue
         start, loop, it = found
         analysed += 1
